@@ -225,7 +225,12 @@ def generation_tokens(prog, cg, acc):
                         elif e["k"] == "write" and mentions(e["value"], lambda t: t == r):
                             ok = False
                     if path.end == "return" and path.ret is not None and mentions(path.ret, lambda t: t == r):
-                        ok = False
+                        # returning the *outcome of the test* (`fn is_current(self) -> bool { ID.load() == self.0 }`) is
+                        # fine; returning the token value itself is not
+                        rr = strip(path.ret)
+                        if not (rr[0] == "binop" and rr[1] in ("Eq", "Ne") and (strip(rr[2]) == r or strip(rr[3]) == r) and
+                                not mentions(strip(rr[3]) if strip(rr[2]) == r else strip(rr[2]), lambda t: t[0] == "static")):
+                            ok = False
             test_fns.add(p)
         if ok:
             out[st] = {"rmw": sorted(rmw_fns), "tests": sorted(test_fns)}
